@@ -23,6 +23,7 @@ type Site struct {
 	Root   ssa.Value
 	Guards []string
 	Zone   bool // proven by the difference-constraint closure
+	Belief bool // definite from the function's own length test alone (covers a proper prefix), whatever callers pass
 }
 
 // RootInfo says which parameter of a function is attacker-chosen and the
@@ -504,6 +505,15 @@ func (fi *fnInfo) symSite(ins ssa.Instruction, b *ssa.BasicBlock) (Site, bool) {
 	if zsafe, _ := fi.ZoneSafe(sl, req, extra, b); zsafe {
 		s.Class, s.Why = "SAFE", ""
 		s.Zone = true
+		return s, true
+	}
+	// the function's own length test covers a proper prefix of what is accessed: the bound is
+	// G + T, a dominating test establishes len >= G for that very G, and T is a packet value
+	// that no other dominating condition mentions
+	if g, t, ok := fi.prefixGuard(sl, req, b); ok {
+		s.Class = "DEF"
+		s.Belief = true
+		s.Why = fmt.Sprintf("the dominating length test covers the offset %s only, but the access reaches %s beyond it, a value taken from the packet that nothing bounds", describeVal(g), describeVal(t))
 		return s, true
 	}
 	if best == -1<<30 {
